@@ -11,9 +11,10 @@ Cfgs == << BB(2, 2, UNSET), BB(3, 1, 7), BB(UNSET, UNSET, UNSET), BB(3, UNSET, -
 Dflt == BB(4, 4, UNSET)
 Handles == 1..2
 
-mvars == <<svc, pend, env, gh, n>>
+mvars == <<svc, pend, ek, gh, n>>
 
-MCInit == AInit("bb", Cfgs, Dflt) /\ n = 0
+MCEnv(k) == [pat |-> "bb", cfgs |-> Cfgs, dflt |-> Dflt]
+MCInit == AInit(1) /\ n = 0
 
 InUse(h) == \/ \E nd \in Threads : <<h, nd>> \in svc.users
             \/ \E t \in Threads : pend[t].st # "idle" /\ pend[t].h = h
@@ -42,8 +43,8 @@ DoRet ==
          LET p == pend[t] IN
          \/ /\ p.st = "done"
             /\ RetDone(t, p.a, p.r,
-                       IF Handle(p) THEN (IF gh.idmap[p.id] = 0 THEN p.id ELSE gh.idmap[p.id]) ELSE 0,
-                       p.s, p.v, p.h)
+                       IF Handle(p) THEN (IF svc.lid = 0 THEN gh.seen + 1 ELSE svc.lid) ELSE 0,
+                       IF Handle(p) THEN NewS(p.sc) ELSE Dflt, p.v, p.h)
          \/ \E r \in TransientResults : RetTransient(t, p.a, r, 0)
 
 DoQuiescent == Quiescent(IF svc.ex THEN 1 ELSE 0, IF svc.ex THEN 1 ELSE 0, 0, 0) /\ UNCHANGED n
@@ -53,6 +54,6 @@ MCSpec == MCInit /\ [][MCNext]_mvars
 
 \* a handle number is never in `users` twice
 UsersWellFormed == \A u, w \in svc.users : u[1] = w[1] => u = w
-\* different settings after re-creation are really possible (must be REFUTED: non-vacuity, not in the cfg)
-NeverRecreatedDifferently == Len(gh.cs) >= 2 => gh.cs[1] = gh.cs[2]
+\* re-creation with different settings is really reachable (must be REFUTED: non-vacuity, not in the cfg)
+NeverRecreated == ~(svc.ex /\ svc.id >= 2 /\ svc.c = 2)
 =============================================================================
